@@ -646,6 +646,35 @@ fn do_op<T: ElemT>(m: &mut Tab<T>, w: &[&str], chk: &mut Vec<String>, held: &mut
             held.push(Box::new(got));
             list3(&l)
         }
+        "tintoiter" => {
+            // owning iterator: take n with next() (len / size_hint exact at every step), drop the rest
+            let take = n(1) as usize;
+            let total = m.len();
+            let old = std::mem::replace(m, HashTable::new_in(Ledger));
+            let mut it = old.into_iter();
+            let mut got: Vec<T> = Vec::new();
+            for j in 0..take {
+                let r = total - j.min(total);
+                if it.len() != r || it.size_hint() != (r, Some(r)) {
+                    chk.push(format!("into_iter: len()={} size_hint={:?} but {} remain", it.len(), it.size_hint(), r));
+                }
+                match it.next() {
+                    Some(e) => got.push(e),
+                    None => break,
+                }
+            }
+            let l: Vec<(u64, u64, u64)> = got.iter().map(|e| (e.id(), e.stamp(), e.val())).collect();
+            if take % 2 == 1 {
+                let c = it.fold(0usize, |a, _| a + 1);
+                if c + got.len() != total {
+                    chk.push(format!("into_iter: next() x {} + fold visits {} of {} elements", got.len(), c + got.len(), total));
+                }
+            } else {
+                drop(it);
+            }
+            held.push(Box::new(got));
+            list3(&l)
+        }
         "tlen" => format!("num {}", m.len()),
         "tcapacity" => format!("num {}", m.capacity()),
         "tallocsize" => format!("num {}", m.allocation_size()),
